@@ -305,6 +305,9 @@ def load_findings():
 
 
 def hexs(bs):
+    for b in bs:
+        if not (0 <= b <= 255):
+            raise Infra("the specification produced a byte outside 0..255 (%r): specification error, not a verdict" % (b,))
     return "".join("%02x" % b for b in bs) if len(bs) else "-"
 
 def unhexs(s):
